@@ -505,15 +505,36 @@ class StdioClient:
         except Exception as e:
             logger.debug(f"Error during stdio client shutdown: {e}")
         finally:
-            # Always reap the child, even when the exit itself is being cancelled
-            if self.process and self.process.returncode is None:
+            # Always reap the child and release its pipes, even when the exit
+            # itself is being cancelled
+            if self.process:
                 try:
                     with anyio.CancelScope(shield=True):
-                        await self._terminate_process()
+                        if self.process.returncode is None:
+                            await self._terminate_process()
+                        if self.process.returncode is not None:
+                            await self._drain_stdout()
                 except Exception as e:
                     logger.debug(f"Error during stdio client shutdown: {e}")
 
         return False
+
+    async def _drain_stdout(self) -> None:
+        """Read what the finished child left in its stdout pipe.
+
+        The event loop only releases a subprocess pipe once it has seen EOF on
+        it; a pipe whose reading was paused (child wrote faster than messages
+        were consumed) never gets there unless somebody reads it out.
+        """
+        stdout = getattr(self.process, "stdout", None)
+        if stdout is None:
+            return
+        try:
+            with anyio.move_on_after(0.5):
+                async for _ in stdout:
+                    pass
+        except Exception as e:
+            logger.debug(f"Error draining subprocess stdout: {e}")
 
     async def _terminate_process(self) -> None:
         """Terminate the helper process gracefully, with shorter timeouts."""
